@@ -29,6 +29,9 @@ class BlockStatement:
             if not iterations.is_integer():
                 raise JaqalError(f"Subcircuit count {iterations} is not an integer.")
             iterations = int(iterations)
+        elif hasattr(iterations, "resolve_qubit"):
+            # a register, a register alias or a qubit
+            raise JaqalError(f"Subcircuit count {iterations} is not a number.")
         self._iterations = iterations
         if not self._subcircuit and self._iterations != 1:
             raise JaqalError("Only subcircuits may have iterations != 1")
